@@ -379,13 +379,17 @@ impl<'a> ItemUseIter<'a> {
         }
     }
 
-    fn resolve_crate_name(&self) -> CrateName {
-        let crate_name = self.base_name();
-        if crate_name == "crate" || crate_name == "super" || crate_name == "self" {
-            self.crate_name.clone()
-        } else {
-            CrateName::from(crate_name)
-        }
+    /// The crate a `use` tree is rooted in; `None` for a tree without a path such as
+    /// `use some_crate;` or `use {a::B, c::D};`, which names no importable type by itself.
+    fn resolve_crate_name(&self) -> Option<CrateName> {
+        let crate_name = self.base_name.as_ref()?;
+        Some(
+            if crate_name == "crate" || crate_name == "super" || crate_name == "self" {
+                self.crate_name.clone()
+            } else {
+                CrateName::from(crate_name.as_str())
+            },
+        )
     }
 
     fn add_name(&mut self, ident: &syn::Ident) {
@@ -394,12 +398,6 @@ impl<'a> ItemUseIter<'a> {
         }
     }
 
-    fn base_name(&self) -> String {
-        self.base_name
-            .as_ref()
-            .cloned()
-            .expect("base name not in use statement?")
-    }
 }
 
 impl Iterator for ItemUseIter<'_> {
@@ -414,7 +412,9 @@ impl Iterator for ItemUseIter<'_> {
                 }
                 syn::UseTree::Name(name) => {
                     let type_name = name.ident.to_string();
-                    let base_crate = self.resolve_crate_name();
+                    let Some(base_crate) = self.resolve_crate_name() else {
+                        continue;
+                    };
                     if accept_crate(base_crate.as_str()) && accept_type(&type_name) {
                         return Some(ImportedType {
                             base_crate,
@@ -426,7 +426,9 @@ impl Iterator for ItemUseIter<'_> {
                     // TODO: I need to do something here.
                 }
                 syn::UseTree::Glob(_) => {
-                    let base_crate = self.resolve_crate_name();
+                    let Some(base_crate) = self.resolve_crate_name() else {
+                        continue;
+                    };
                     if accept_crate(base_crate.as_str()) {
                         return Some(ImportedType {
                             base_crate,
